@@ -196,6 +196,27 @@ func (env *SpecEnv) ident(name string) SVal {
 		if id, ok := env.fr.named[name]; ok && !env.inOld {
 			return SVal{V: env.st().cells[id], T: env.fr.namedT[name]}
 		}
+		if !env.inOld && env.fr.fn != nil {
+			// a variable captured by this closure
+			for i, fv := range env.fr.fn.FreeVars {
+				if fv.Name() == name && i < len(env.fr.free) {
+					b := env.fr.free[i]
+					pt, isPtr := fv.Type().Underlying().(*types.Pointer)
+					if !isPtr {
+						break
+					}
+					if b.P != nil {
+						return SVal{V: env.st().load(b.P), T: pt.Elem()}
+					}
+					if b.T != nil {
+						if isBigInt(pt.Elem()) {
+							return SVal{V: scalar(b.T), T: pt}
+						}
+						return SVal{V: env.st().load(derefPlace(b.T, pt)), T: pt.Elem()}
+					}
+				}
+			}
+		}
 		if id, ok := env.fr.named["&"+name]; ok {
 			// escaping local: cell holds the object reference; value is the pointee
 			ref := env.st().cells[id].T
@@ -209,6 +230,12 @@ func (env *SpecEnv) ident(name string) SVal {
 	}
 	if v, ok := env.vars[name]; ok {
 		return v
+	}
+	if env.fr != nil && env.fr.fn != nil && env.fr.fn.Parent() != nil {
+		// inside a closure: parameters of the function under verification (their entry values)
+		if v, ok := env.e.entryParams[name]; ok {
+			return v
+		}
 	}
 	if g, ok := env.e.db.Ghosts[name]; ok {
 		return SVal{V: scalar(env.st().heapGet("G:"+name, ghostSort(g.Type))), G: g.Type}
